@@ -1,13 +1,17 @@
 (* C12 Fixing sequences only ever narrows constraints, at the right positions.
-   Proved for the base case (Sequence.fix_seq / ReverseSequence.fix_seq): per position the new
-   code denotes exactly the intersection; wrong length and empty intersection are errors; only
-   the addressed sequence changes, its length is kept, a failed fix changes nothing; a starred
-   domain is fixed through the reverse complement.  The distribution over composite objects
-   (offsets through nested super-sequences, strands, multi-strand structures, signals through
-   nested systems) is the model's fix_refs / fix_signal, tied to the code by correspondence and
-   checked per case against the per-nucleotide intersection oracle. *)
+   Proved: (base case, Sequence.fix_seq / ReverseSequence.fix_seq) per position the new code
+   denotes exactly the intersection; wrong length and empty intersection are errors; only the
+   addressed sequence changes, its length is kept, a failed fix changes nothing; a starred domain
+   is fixed through the reverse complement.  (Composite case) in any well-formed component,
+   SuperSequence.fix_seq over a nested item list (super-sequences, strands, complemented views)
+   equals fixing the flattened base-sequence references left to right, each with its own slice of
+   the string (C12_composite_flat), and every base sequence ends with its old constraint
+   intersected, in order, with each slice that lands on one of its occurrences, reverse
+   complemented for starred occurrences, everything else untouched (C12_composite_positions).
+   Signals through nested systems and the warning path are the model's fix_signal / fix_at, tied
+   to the code by correspondence and checked per case against the per-nucleotide oracle. *)
 From Coq Require Import List String Ascii Arith Bool.
-From PC Require Import Base.Codes Comp.Syntax Comp.Compile Comp.Fix Comp.FixProofs.
+From PC Require Import Base.Codes Comp.Syntax Comp.Compile Comp.EmitProofs Comp.Fix Comp.FixProofs Comp.FixComposite.
 Import ListNotations.
 
 Theorem C12_position_is_intersection : forall old fixed k, List.length old = List.length fixed -> inter_consts old fixed = (k, FOk) ->
@@ -42,3 +46,19 @@ Print Assumptions C12_failed_fix_unchanged.
 Theorem C12_starred_domain : forall bs n fixed w, wc_codes fixed = Some w -> fix_bref bs (n, true) fixed = fix_base bs n w.
 Proof. exact fix_bref_star. Qed.
 Print Assumptions C12_starred_domain.
+
+Theorem C12_composite_flat : forall c, WF c -> forall s before bs fixed, sup_ok c before s ->
+  (forall m, ahas before m = true -> ahas (c_sups c) m = true) -> lens_agree c bs ->
+  fix_sup c bs s fixed = if negb (Nat.eqb (List.length fixed) (s_len s)) then (bs, FFail "length")
+                         else fix_brefs bs (s_base s) fixed.
+Proof. exact fix_sup_flat. Qed.
+Print Assumptions C12_composite_flat.
+
+Theorem C12_composite_positions : forall l bs fixed bs', fix_brefs bs l fixed = (bs', FOk) ->
+  forall n, match afind bs n with
+            | Some b => exists k, afind bs' n = Some {| b_len := b_len b; b_const := k; b_anon := b_anon b |} /\
+                                  fold_inter (b_const b) (slices bs l fixed n) = (k, FOk)
+            | None => afind bs' n = None
+            end.
+Proof. exact fix_brefs_spec. Qed.
+Print Assumptions C12_composite_positions.
